@@ -6,7 +6,7 @@ from engine import Op, set_mode
 
 PROP = "C20"
 QUICK_BOOST = 2
-LEAN_MODULES = ["IsoDT.Props.C20", "IsoDT.Props.C20b"]
+LEAN_MODULES = ["IsoDT.Props.C20", "IsoDT.Props.C20b", "IsoDT.Props.C20q"]
 RULE = ("truncated points of every shape (time-of-day fields T06, T-30, T--15, ...; one day designator: "
         "day-of-month, day-of-year, weekday, week + weekday; alone or combined) x every field value incl. day "
         "29-31, day-of-year 366, week 53 x full whole-second points (3 representations, any offset, incl. 24:00, "
@@ -182,6 +182,30 @@ class AddTrunc(Op):
                         if target <= (52 if m == "d360" else 53):
                             yield (m, ("w", y, w, 3, 0, 0, 1, -5, -45),
                                    (target, 3, None, None, None, None, None, None, None))
+        # the longest waits: the rarest targets (last week number, last day number of a long year) asked for just
+        # after they occurred at the start of their longest gap (week 53: 7 years once per 400; day 366: 8 years
+        # across a common century year)
+        for m in (oracle.MODES if tier != "quick" else ["greg", "d360", "d365"]):
+            span = range(1600, 2001) if m == "greg" else range(1996, 2012)
+            wmax = max(oracle.weeks_in_year(m, y) for y in span)
+            ymax = max(oracle.year_len(m, y) for y in span)
+            long_w = [y for y in span if oracle.weeks_in_year(m, y) == wmax]
+            long_y = [y for y in span if oracle.year_len(m, y) == ymax]
+            gaps_w = sorted(((b - a, a) for a, b in zip(long_w, long_w[1:])), reverse=True)[:3]
+            gaps_y = sorted(((b - a, a) for a, b in zip(long_y, long_y[1:])), reverse=True)[:2]
+            for gap, y in gens.shard_filter(gaps_w, self.shard):
+                if len(set(oracle.weeks_in_year(m, yy) for yy in span)) == 1:
+                    break
+                for (yy, w, d) in ((y + 1, 1, 1), (y + 1, 46, 7), (y + 1, 30, 3), (y, wmax, 7), (y + gap - 1, 20, 1)):
+                    if w <= oracle.weeks_in_year(m, yy):
+                        yield (m, ("w", yy, w, d, 6, 30, 0, 0, 0), (wmax, rng.randint(1, 7), None, None, None, None, None, None, None))
+                        yield (m, ("c",) + oracle.cal_of_day_num(m, oracle.date_day_num(m, ("w", yy, w, d))) + (23, 59, 59, 5, 30),
+                               (wmax, 1, None, None, rng.choice([None, 0]), None, None, None, None))
+            for gap, y in gens.shard_filter(gaps_y, self.shard):
+                if len(set(oracle.year_len(m, yy) for yy in span)) == 1:
+                    break
+                for (yy, doy) in ((y + 1, 1), (y + 1, 200), (y, ymax), (y + gap - 1, 100)):
+                    yield (m, ("o", yy, doy, 0, 0, 0, 1, 0, 0), (None, None, None, ymax, None, None, None, None, None))
         if tier != "quick":
             for m in gens.shard_filter(oracle.MODES, self.shard):
                 base = ("c", 2021, 3, 1, 10, 0, 0, 0, 0)
